@@ -428,10 +428,12 @@ def run(ck):
             if cls in ("panic", "engine-panic"):
                 npanic += 1
                 site = site_of(c)
-                if not reuse and "index out of bounds" in c:
-                    # does the failure need the inline caches? (the stale prototype entry recorded under C06 fails only with them on)
+                if "index out of bounds" in c:
+                    # does the failure need the inline caches? (the stale prototype entry recorded under C06 fails only with them on):
+                    # alone in a fresh context the input must panic with the caches on and must not with them off
+                    p1 = subprocess.run([bins["trace"]], input=b"//// x loop=3000 rec=200 stack=20000 budget=400000\n" + b + b"\n", capture_output=True, timeout=600)
                     p2 = subprocess.run([bins["trace"]], input=b"//// x ic=0 loop=3000 rec=200 stack=20000 budget=400000\n" + b + b"\n", capture_output=True, timeout=600)
-                    if b'"completion":"panic' not in p2.stdout and p2.returncode == 0:
+                    if b'"completion":"panic index out of bounds' in p1.stdout and b'"completion":"panic' not in p2.stdout and p2.returncode == 0:
                         site = "panic-only-with-inline-caches:index out of bounds"
                 ck.fail_input({"site": site, "input": text, "input_hex": b.hex(), "reuse": reuse, "expected": "value | exception | limit error", "actual": c})
     new_fail = sum(1 for c in ck.failing[first_explored:] if not ck.match_known(c))
